@@ -22,6 +22,10 @@ CHECKS = {
                 text="Same exploration as C02. Monitor inside the harness DoQuery and in every quiescent state: concurrent DoQuery calls <= Alpha at every entry; each address (IP, port) is passed to DoQuery at most once per lookup however often and under however many IDs it is reported (replies, seeds, AddNodes, 4-byte and IPv4-mapped forms); an address rejected by the node filter is never queried; once Stop has returned, the context of every DoQuery still in flight is cancelled in the next quiescent state.",
                 note="Alpha in {1,2,3}; addresses are a small IPv4 set",
                 ref="DESIGN.md 5/C04"),
+    "C13": dict(level="model_checking", technique="exhaustive enumeration of operation sequences of the real bep44.Wrapper and Server against a sequential reference model (E1 style, fake clock), plus " + E2.replace("traversal code", "bep44 code") + " with a brute-force linearizability check",
+                text="Sequential: every sequence (depth 3 quick / 4 thorough directly on bep44.Wrapper with a 51-letter alphabet; depth 2 / 3 over the wire on the real Server with a fresh token per put) of put(seq in {-1,0,1,2,3,MaxInt64}, cas in {0,1,2,9}, value a|b), get (over the wire also naming seq 0/1/2/MaxInt64) and clock steps to 1 ns before / past the expiry, compared after every step with a reference model: 302 for a lower seq or the same seq with another value, 301 unless cas equals the stored seq, an accepted put is what gets return, nothing is served after the expiry, v is sent to a get naming a seq only if the stored seq is newer, and the stored seq never decreases at any Store.Put. Concurrent: 8 scenarios of 2-3 concurrent Wrapper.Put/Get calls (two/three puts, same seq, cas race, empty slot, put vs get, expired item vs put) under the controlled scheduler with points at Store.Get/Put/Del and the wrapper mutex; all interleavings (unbounded), each checked for monotone stored seq and for linearizability against the same model by brute force over the call orders consistent with real time, including the final state later gets see.",
+                note="in the corner the statement leaves open (same seq, same value, mismatching cas) both accept and 301 are legal; an expired item that was not yet deleted may or may not still block a lower-seq put",
+                ref="DESIGN.md 5/C13"),
     "C05": dict(level="model_checking", technique=E1,
                 text="All event histories up to the stated depth (full alphabet depth 2 / core alphabet depth 4 quick; deeper thorough) from 5 start states x 2 configurations are executed on the real Server; after every event the table snapshot must be a well-formed Kademlia table and agree with NumNodes/Stats/Nodes/WriteStatus. Bounded exhaustive, not a proof.",
                 note="go1.26.8 synctest runtime; VerifTable hook snapshot is trusted to copy the table faithfully; eviction victim among equally eligible entries is chosen by Go map order and not enumerated",
